@@ -339,7 +339,7 @@ def real_bank_oracle(ctx):
             parts, off = [], 0
             # how the chunks reach the computer: slices of the signal, or one block array that the caller refills for
             # every chunk (an audio callback) and overwrites as soon as the call returns
-            reuse = case_no % 3 == 1
+            reuse = case_no % 3 == 1 and not layout     # a non-contiguous signal is fed as slices of itself (views)
             case["feed"] = "reused_block" if reuse else "slices"
             blk = np.empty(max(chunks + [1]), dtype=fdt)
             for c in chunks:
@@ -352,7 +352,7 @@ def real_bank_oracle(ctx):
                 off += c
             parts.append(comp.finalize())
             st = np.concatenate(parts)
-            fbf = compute.frame_by_frame_calculation(comp, x, r.choice([1, 7, 160, 1024]))
+            fbf = compute.frame_by_frame_calculation(comp, x, (2 * L + 3) if layout else r.choice([1, 7, 160, 1024]))
         except Exception as e:
             if comp.started:
                 try:
